@@ -1505,3 +1505,18 @@ V('C18', 'increment-two', S1, "                    repeat += 1\n", "            
 V('C18', 'data-not-forwarded', S1, "                self._repeated_event.send(self, **data, repeat=repeat)", "                self._repeated_event.send(self, repeat=repeat)", 'R18.2')
 E('C18', 'count-flipped', S1, "            repeating = self._count is None or repeat < self._count", "            repeating = self._count is None or self._count > repeat")
 E('C18', 'source-subscript', S1, "        data['orig_source'] = data.get('source')\n", "        data['orig_source'] = data.get('source')\n        self.log_debug('repeating %s', etype)\n")
+
+# ----------------------------------------------------------------------------- C16 DataEdit semantics
+V('C16', 'rename-keeps-src', FIL, "            data[dst] = data[src]\n            del data[src]\n            return data", "            data[dst] = data[src]\n            return data", 'R16.4d')
+V('C16', 'delete-raises', FIL, "            for key in args:\n                data.pop(key, None)\n            return data", "            for key in args:\n                del data[key]\n            return data", 'R16.4d')
+V('C16', 'permit-inverted', FIL, "                if key not in args:\n                    del data[key]", "                if key in args:\n                    del data[key]", 'R16.4d')
+V('C16', 'copy-reversed', FIL, "            data[dst] = data[src]\n            return data\n        self._editlist.append(_edit)\n        return self\n\n    @_dualmethod\n    def delete", "            data[src] = data[dst]\n            return data\n        self._editlist.append(_edit)\n        return self\n\n    @_dualmethod\n    def delete", 'R16.4d')
+V('C16', 'modify-delete-ignored', FIL, "            if replacement is self.DELETE:\n                del data[key]\n            else:\n                data[key] = replacement", "            if replacement is self.DELETE:\n                data[key] = None\n            else:\n                data[key] = replacement", 'R16.4')
+V('C16', 'addoutput-wrong-key', FIL, "self._editlist.append(lambda data: {**data, key: src.block.output})", "self._editlist.append(lambda data: {key: src.block.output, **data})", 'R16.4d')
+E('C16', 'rename-pop', FIL, "            data[dst] = data[src]\n            del data[src]\n            return data", "            value = data[src]\n            data[dst] = value\n            del data[src]\n            return data")
+E('C16', 'permit-comprehension', FIL, """            for key in list(data):
+                if key not in args:
+                    del data[key]
+            return data""", """            for key in [k for k in list(data) if k not in args]:
+                del data[key]
+            return data""", note='list comprehension is outside the fragment -> expect exit 2? kept to document the limit')
